@@ -243,97 +243,7 @@ func runC05(c *Ctx) {
 	if lemma && a.PairedUsed == 0 {
 		R.Fatal("the paired-map lemma was established but never used by E1 (the timestamp-record dereference was not found)")
 	}
-	// ---- every extracted message is filed exactly once, in stream order
-	{
-		R.Rules["S.each-once"] = "completePack runs once for every message the extractor returned for this read, in order: its argument is the element of the extractor's result at the loop index, and inside that loop the array being walked is not rearranged - the slice (or anything that may share its array) is only indexed, measured or grown with append; an insertion / deletion shifts elements under the running index, so a frame of a coalesced read is skipped and another is filed twice"
-		parse := c.P.Method("service", "packageParse", "parse")
-		cpk := c.P.Method("service", "packageParse", "completePack")
-		n := 0
-		if parse != nil && cpk != nil {
-			for _, fn := range c.familyOf(parse) {
-				loops := naturalLoops(fn)
-				for _, b := range fn.Blocks {
-					for _, ins := range b.Instrs {
-						call, isC := ins.(*ssa.Call)
-						if !isC || call.Call.StaticCallee() != cpk || len(call.Call.Args) < 2 {
-							continue
-						}
-						n++
-						key := shortFn(fn) + " / " + c.constructOf(fn, call)
-						ld, isLd := call.Call.Args[1].(*ssa.UnOp)
-						var ia *ssa.IndexAddr
-						if isLd {
-							ia, _ = ld.X.(*ssa.IndexAddr)
-						}
-						if ia == nil {
-							// not a loop over a slice (a single message): nothing to rearrange
-							R.Add("S.each-once", key, c.P.RelPos(call.Pos()), report.Discharged, "")
-							continue
-						}
-						// values that may share the walked array
-						alias := map[ssa.Value]bool{ia.X: true}
-						for changed := true; changed; {
-							changed = false
-							for _, b2 := range fn.Blocks {
-								for _, i2 := range b2.Instrs {
-									v, isV := i2.(ssa.Value)
-									if !isV || alias[v] {
-										continue
-									}
-									switch x := i2.(type) {
-									case *ssa.Phi:
-										for _, e := range x.Edges {
-											if alias[e] {
-												alias[v], changed = true, true
-											}
-										}
-									case *ssa.Slice:
-										if alias[x.X] {
-											alias[v], changed = true, true
-										}
-									case *ssa.Call:
-										if app, isApp := isBuiltinCall(x, "append"); isApp && alias[app.Call.Args[0]] {
-											alias[v], changed = true, true
-										}
-									}
-								}
-							}
-						}
-						st, d := report.Discharged, ""
-						for _, l := range loops {
-							if !l[b] {
-								continue
-							}
-							for lb := range l {
-								for _, i2 := range lb.Instrs {
-									switch x := i2.(type) {
-									case *ssa.Call:
-										if bi, isB := x.Call.Value.(*ssa.Builtin); isB && (bi.Name() == "append" || bi.Name() == "len" || bi.Name() == "cap") {
-											continue
-										}
-										for _, a := range x.Call.Args {
-											if alias[a] {
-												st, d = report.Violated, fmt.Sprintf("inside the loop that files the messages, the slice being walked is handed to %s at %s: elements can move under the running index (a frame of a coalesced read is skipped, another is filed twice)", calleeName(&x.Call), c.P.RelPos(x.Pos()))
-											}
-										}
-									case *ssa.Store:
-										if ia2, isIA := x.Addr.(*ssa.IndexAddr); isIA && alias[ia2.X] {
-											st, d = report.Violated, "inside the loop that files the messages, an element of the slice being walked is overwritten at "+c.P.RelPos(x.Pos())
-										}
-									}
-								}
-							}
-						}
-						R.Add("S.each-once", key, c.P.RelPos(call.Pos()), st, d)
-					}
-				}
-			}
-		}
-		if n == 0 {
-			R.Fatal("S.each-once: no call of completePack found in the family of packageParse.parse (anchor)")
-		}
-		R.Require("S.each-once", 1, "")
-	}
+	c.eachOnceRule()
 	// ---- a slot holds the body of the packet filed under its number, nothing accumulated
 	{
 		R.Rules["S.slot-store"] = "a store into a slot of the part table puts there exactly the body of the packet being filed (the Body slice itself or a copy of it made from an empty slice): nothing derived from what the slot held before - a retransmitted packet replaces its slot"
@@ -924,4 +834,145 @@ func (c *Ctx) completedMessageStandalone(rule string) {
 		a.PairedMaps = map[string]string{".packageParse#timeoutRecord": ".packageParse#subcontractingRecord"}
 	})
 	c.completedMessageObligations(rule, cp, results[0])
+}
+
+// eachOnceRule (shared by C05 and C10): every extracted message is filed exactly once, in stream order, and the loop
+// that does it terminates with the batch.
+func (c *Ctx) eachOnceRule() {
+	R := c.R
+	R.Rules["S.each-once"] = "completePack runs once for every message the extractor returned for this read, in order: its argument is the element of the extractor's result at the loop index, and inside that loop the array being walked is not rearranged - the slice (or anything that may share its array) is only indexed, measured or grown with append; an insertion / deletion shifts elements under the running index, so a frame of a coalesced read is skipped and another is filed twice"
+	parse := c.P.Method("service", "packageParse", "parse")
+	cpk := c.P.Method("service", "packageParse", "completePack")
+	n := 0
+	if parse != nil && cpk != nil {
+		for _, fn := range c.familyOf(parse) {
+			loops := naturalLoops(fn)
+			for _, b := range fn.Blocks {
+				for _, ins := range b.Instrs {
+					call, isC := ins.(*ssa.Call)
+					if !isC || call.Call.StaticCallee() != cpk || len(call.Call.Args) < 2 {
+						continue
+					}
+					n++
+					key := shortFn(fn) + " / " + c.constructOf(fn, call)
+					ld, isLd := call.Call.Args[1].(*ssa.UnOp)
+					var ia *ssa.IndexAddr
+					if isLd {
+						ia, _ = ld.X.(*ssa.IndexAddr)
+					}
+					if ia == nil {
+						// not a loop over a slice (a single message): nothing to rearrange
+						R.Add("S.each-once", key, c.P.RelPos(call.Pos()), report.Discharged, "")
+						continue
+					}
+					// values that may share the walked array
+					alias := map[ssa.Value]bool{ia.X: true}
+					for changed := true; changed; {
+						changed = false
+						for _, b2 := range fn.Blocks {
+							for _, i2 := range b2.Instrs {
+								v, isV := i2.(ssa.Value)
+								if !isV || alias[v] {
+									continue
+								}
+								switch x := i2.(type) {
+								case *ssa.Phi:
+									for _, e := range x.Edges {
+										if alias[e] {
+											alias[v], changed = true, true
+										}
+									}
+								case *ssa.Slice:
+									if alias[x.X] {
+										alias[v], changed = true, true
+									}
+								case *ssa.Call:
+									if app, isApp := isBuiltinCall(x, "append"); isApp && alias[app.Call.Args[0]] {
+										alias[v], changed = true, true
+									}
+								}
+							}
+						}
+					}
+					st, d := report.Discharged, ""
+					// the batch is the extractor's result as returned: the loop's bound is not the length of a slice the loop
+					// itself appends to (an index loop `i < len(msgs)` with `msgs = append(msgs, merged)` in its body files the
+					// merged messages again - for a "1 of 1" fragment without end)
+					for _, l := range loops {
+						if !l[b] {
+							continue
+						}
+						for lb := range l {
+							for _, i2 := range lb.Instrs {
+								cmp, isCmp := i2.(*ssa.BinOp)
+								if !isCmp || cmp.Op != token.LSS {
+									continue
+								}
+								ln, isLn := isBuiltinCall(instrOf(cmp.Y), "len")
+								if !isLn || !alias[ln.Call.Args[0]] {
+									continue
+								}
+								if phi, isPhi := ln.Call.Args[0].(*ssa.Phi); isPhi && l[phi.Block()] {
+									// appends inside the loop that flow into the bound's slice (through the φs of the loop)
+									var apps []*ssa.Call
+									seenV := map[ssa.Value]bool{}
+									var walkV func(v ssa.Value)
+									walkV = func(v ssa.Value) {
+										if seenV[v] {
+											return
+										}
+										seenV[v] = true
+										if ph, ok := v.(*ssa.Phi); ok && l[ph.Block()] {
+											for _, e := range ph.Edges {
+												walkV(e)
+											}
+											return
+										}
+										if app, isApp := isBuiltinCall(instrOf(v), "append"); isApp && l[app.Block()] {
+											apps = append(apps, app)
+										}
+									}
+									walkV(phi)
+									for _, app := range apps {
+										{
+											st, d = report.Violated, fmt.Sprintf("the loop that files the messages runs while its index is below the length of the slice it appends the merged messages to (bound at %s, append at %s): merged messages are filed again, and a fragment that completes by itself (1 of 1) keeps the loop running and allocating for ever", c.P.RelPos(cmp.Pos()), c.P.RelPos(app.Pos()))
+										}
+									}
+								}
+							}
+						}
+					}
+					for _, l := range loops {
+						if !l[b] {
+							continue
+						}
+						for lb := range l {
+							for _, i2 := range lb.Instrs {
+								switch x := i2.(type) {
+								case *ssa.Call:
+									if bi, isB := x.Call.Value.(*ssa.Builtin); isB && (bi.Name() == "append" || bi.Name() == "len" || bi.Name() == "cap") {
+										continue
+									}
+									for _, a := range x.Call.Args {
+										if alias[a] {
+											st, d = report.Violated, fmt.Sprintf("inside the loop that files the messages, the slice being walked is handed to %s at %s: elements can move under the running index (a frame of a coalesced read is skipped, another is filed twice)", calleeName(&x.Call), c.P.RelPos(x.Pos()))
+										}
+									}
+								case *ssa.Store:
+									if ia2, isIA := x.Addr.(*ssa.IndexAddr); isIA && alias[ia2.X] {
+										st, d = report.Violated, "inside the loop that files the messages, an element of the slice being walked is overwritten at "+c.P.RelPos(x.Pos())
+									}
+								}
+							}
+						}
+					}
+					R.Add("S.each-once", key, c.P.RelPos(call.Pos()), st, d)
+				}
+			}
+		}
+	}
+	if n == 0 {
+		R.Fatal("S.each-once: no call of completePack found in the family of packageParse.parse (anchor)")
+	}
+	R.Require("S.each-once", 1, "")
 }
